@@ -33,13 +33,13 @@ CLAIMED = {
             "converges to the Unicode form (C03_expr_alias_converge, C03_expr_spellings_agree); one-line and one-item-per-line layouts of list values converge (C03_list_layouts_converge, "
             "C03_list_layouts_agree); # for the section sign (C03_sect_hash_canonicalises); emit ignores every source position; alias table sound and complete; 2 spaces per level; final newline. "
             "every indentation spelling of a block tree (per-block width >= 1, ragged deeper siblings, blank lines, per-line freedoms, every frame) converges (C03_tree_indent_converge, "
-            "C03_tree_spelled_converge, C03_tree_framed_converge). PARTIAL: indentation spellings combined with comments / sections / lists are decided by the search: independent lenient spellings per document incl. the far corner (every site non-canonical) converge byte-for-byte; "
+            "C03_tree_spelled_converge, C03_tree_framed_converge), also with ===END=== indented by any number of spaces behind any tree (C03_tree_endindent_converge, C03_tree_endindent_agree); multi-word values of every head kind at any spacing converge (C03_multiword_converge, C03_mwnum_converge, C03_mwbool_converge). PARTIAL: indentation spellings combined with comments / sections / lists are decided by the search: independent lenient spellings per document incl. the far corner (every site non-canonical) converge byte-for-byte; "
             "independent strict-profile recogniser; octave_write(lenient) bytes."),
     "C04": ("text", "Lean 4 proof (escape/unescape inverse; strings, booleans, null, integers survive emit -> tokenize -> parse inside documents; int/float re-lex) + exhaustive scalar round trip",
             "Theorems hold for every string of any characters: unescape(escape s) = s; the quoted lexeme re-lexes to ONE STRING token carrying s; a bare word to one IDENTIFIER token; every int within "
             "CPython's 4300-digit limit and every float repr re-lex to ONE NUMBER token with the same value, beyond the limit a positioned LexerError (C04_int_relex, C04_int_over_limit_refused, "
             "C04_float_relex under the Env law repr(float(r)) = r); at document level the value read back equals the value written (C02_flat_content_preserved and the classes of C01, floats as line values in C02_mdoc_content_preserved, float and negative-int items at any path of a nested list in C04_nested_number_survives, inline-map values in C04_maps_scalar_survives). PARTIAL: floats "
-            "as META values, expression-shaped strings in one-item lists (finding C04N1) and NFC (finding F16) are decided by the exhaustive correspondence: strings <=3 over the class alphabet x 9 positions, random strings, "
+            "in META lists (scalars and floats as META values are C04_metanum_survives), expression-shaped strings in one-item lists (finding C04N1) and NFC (finding F16) are decided by the exhaustive correspondence: strings <=3 over the class alphabet x 9 positions, random strings, "
             "ints to 4300 digits, floats; octave_write changes path."),
     "C05": ("text", "Lean 4 proof (a zone is tokenised, read and re-emitted verbatim for every content, marker and tag; exact guard of finding C05N1) + zone pipelines search",
             "Theorems (every content: tabs, NFD, backslashes, quotes, operators, ===END===, shorter backtick runs): normalisation returns the text unchanged with exactly one span, tabs are accepted "
@@ -58,7 +58,7 @@ CLAIMED = {
             "text, none in strict mode (C07_brace_receipts, C07_brace_canonical_none, C07_brace_strict_no_rewrite); and FOR EVERY INPUT TEXT the curlyBrace records of a lenient run are, in order, "
             "in one-to-one correspondence with the brace steps of the run and with distinct IDENTIFIER tokens NAME<q> at the record's line and column, no other token kind ever owns one, a non-lenient run logs "
             "none (C07_braceall_matching, C07_braceall_record_has_token, C07_braceall_trace, C07_braceall_strict_none). Multi-word values headed by an integer or a quoted string (K::3 blind mice, "
-            "K::\"s\" x): exact value, exact receipts, convergence (C07_mwnum_read, C07_mwnum_receipts, C07_mwnum_receipts_exact, C07_mwnum_canonical_none, C03_mwnum_converge); finding C07N3 "
+            "K::\"s\" x) and by true / false / null / a three-part version (C07_mwbool_read, C07_mwbool_receipts): exact value, exact receipts, convergence (C07_mwnum_read, C07_mwnum_receipts, C07_mwnum_receipts_exact, C07_mwnum_canonical_none, C03_mwnum_converge); finding C07N3 "
             "(a bracket group adjacent to the last word is dropped without receipt) is a theorem about the model (C07_mwnum_adjacent_bracket_silent) and replayed on the real code. "
             "PARTIAL: the other parser-level rewrites (multi-word values headed by booleans / null / versions, constructor repairs) and the tool routes (findings C07N1, C07N2) are decided by the search: expected receipts from the renderer's own layout "
             "arithmetic, compared as lists with positions; model/implementation receipt lists correspond exactly."),
